@@ -17,6 +17,7 @@ def props(P):
         "C11": sim("TestC11", (300, 300), (16, 1200, 1800), regress="TestRegressC11"),
         "C14": sim("TestC14", (600, 300), (16, 2500, 1800)),
         "C15": front("TestC15", (1500, 300), (8, 20000, 1200)),
+        "C12": P("kernelq", "TestC12", (1500, 300), (16, 6000, 1800)),
         "C18": P("pollt", "TestC18", (1500, 300), (16, 6000, 1200)),
         "C19": P("route", "TestC19", (20000, 300), (16, 100000, 1200)),
         "C16": store("TestC16", (400, 300), (16, 1200, 2400)),
